@@ -276,11 +276,11 @@ Eigen::Matrix<DerivedScalar, 4, 1> mean_quaternion(const Eigen::MatrixBase<Deriv
         outer_product_mean.noalias() += weight.col(0)(i) * quaternion.col(i) * quaternion.col(i).transpose();
 
     /* Take the weighted mean as the eigenvector corresponding to the maximum eigenvalue. */
-    Eigen::EigenSolver<Eigen::Matrix<DerivedScalar, 4, 4>> eigen_solver(outer_product_mean);
-    Eigen::Matrix<std::complex<DerivedScalar>, 4, 1> eigenvalues(eigen_solver.eigenvalues());
+    /* The matrix is symmetric: the self-adjoint solver, unlike the general one, always converges. */
+    Eigen::SelfAdjointEigenSolver<Eigen::Matrix<DerivedScalar, 4, 4>> eigen_solver(outer_product_mean);
     int maximum_index;
-    eigenvalues.real().maxCoeff(&maximum_index);
-    return eigen_solver.eigenvectors().real().block(0, maximum_index, 4, 1);
+    eigen_solver.eigenvalues().maxCoeff(&maximum_index);
+    return eigen_solver.eigenvectors().col(maximum_index);
 }
 
 
